@@ -8,6 +8,7 @@ CONSTANTS
   KsIdx = {9, 11}
   TailLen = 0
   Variants = FALSE
+  Ks2 = 0
   ExtraKs = {}
 INVARIANTS CheckAndEmit
 CHECK_DEADLOCK FALSE
